@@ -42,6 +42,7 @@ NATIVE = [
 ]
 ASSUMPTIONS = [
     "history table seen through the ghost-cell view (contracts/fsg_hist.ghost.h, producer side contracts/fsg_hist_prod.ghost.h): fsg_history_entry_get / fsg_history_n_entries are ASSUMED contracts; the element invariant (only entry 0 has no link, pred < id, frames >= -1, link.from_state == dest(entry(pred))) is what the producer side establishes. Producer side under contract: fsg_search_null_prop (the invariant is the precondition of fsg_history_entry_add, proved at its call site). NOT under contract: fsg_search_word_trans / pnode_trans / pnode_exit (word arcs through the lextree), fsg_history_entry_add / end_frame bodies",
+    "WORD ARCS (harness/C01_wordarcs.c, contracts/fsg_wordarc.ghost.h): the invariant HIST_SRC -- every history id held in an HMM of the lextree of grammar state S names an entry whose arc enters S -- is carried by contracts on the real fsg_search_word_trans (establishes it at a root), hmm_vit_eval_3st_lr(_mpx) (back-pointer slots are only copied inside the HMM), fsg_search_pnode_trans (child entered with the parent's exit back-pointer), fsg_search_hmm_prune_prop (call sites) and becomes, in fsg_search_pnode_exit, the path-connectivity precondition of fsg_history_entry_add. ASSUMED there: (a) lextree structure (fsg_lextree.c is not under contract): nodes on the root list of state d and their descendants belong to the lextree of d, a leaf's grammar arc leaves d -- checked on ~43 real lextrees by native/lextree_triphone_enum.c (bounded); (b) unbounded sibling / root / active lists are seen through ONE list cell that is arbitrary at every loop step subject to the loop invariant; acyclicity (termination of the chain walks) is not proved; (c) at the head of the root loop of word_trans the cell is re-instantiated by a ghost havoc + __CPROVER_assume(PCELL_OK && HIST_SRC(cell, d)): the instantiation at d of the universally quantified precondition 'every node n of the lextree of s satisfies HIST_SRC(n, s)', which has no finite requires clause; (d) in prune_prop the node pointer read from the list node's anytype_t union is re-materialised without proof (CBMC loses pointers stored in a union with a double member); (e) history entries from bpidx_start on belong to the current frame, context phones < 128, scores in [WORST_SCORE, 0]; (f) every grammar word is in the dictionary (dict_wordid contract; fsg_search_check_dict); (g) root table of <= 4 grammar states (only indexed). HIST_SRC itself is additionally checked on the live search after every block of every streamed decode of native/e2e_invariants.c (bounded)",
     "arc iterator fsg_model_arcs / fsg_arciter_next / fsg_arciter_get: assumed contracts (yield links leaving the requested state, destination in range)",
     "ghost-cell soundness condition: the caller never reads through an entry pointer older than the most recent accessor call (true by inspection of find_exit/hyp)",
     "err_msg (logging) has no effect on program state",
@@ -51,8 +52,8 @@ ASSUMPTIONS = [
 HAND_LEMMAS = [
     "by induction on the entry id, with the element invariant link.from_state == dest(entry(pred)) the backtrace from any entry is the label sequence of a grammar path leaving the start state; with find_exit's postcondition (final ==> to_state == final_state) it is a sentence",
 ]
-NOT_COVERED = ["word-arc producers of the history invariant (fsg_search_word_trans / pnode_trans / pnode_exit, lextree construction)", "fsg_search_hyp string building and fsg_search_seg_iter backtrace loops (only their no-exit clause is under contract)", "decoder.c dispatch", "grammar augmentation beyond the bounded add_alt check (silence loops, closure)", "the items above are NOT under contract; on real decodes they are exercised only by the bounded native run e2e_invariants (FSG acceptance of hypotheses / partial results, ~25 decodes) -- never counted as proved"]
+NOT_COVERED = ["lextree construction (fsg_lextree.c: structure assumed by the word-arc contracts, checked on real lextrees by a bounded native run only)", "fsg_search_hmm_eval / fsg_search_step sequencing, fsg_history_entry_add / fsg_history_end_frame bodies (the table invariant is their callers' obligation, proved; that they store what they are given is not)", "fsg_search_hyp string building and fsg_search_seg_iter backtrace loops (only their no-exit clause is under contract)", "decoder.c dispatch", "grammar augmentation beyond the bounded add_alt check (silence loops, closure)", "the items above are NOT under contract; on real decodes they are exercised only by the bounded native run e2e_invariants (FSG acceptance of hypotheses / partial results, ~25 decodes) -- never counted as proved"]
 CLAIM = dict(
-    text="Consumer side of 'results are sentences of the grammar': fsg_search_find_exit is proved, with loop invariants and termination, for history tables of any length: the entry it returns has a link, ends no later than the requested frame, carries the reported score and -- for a final result -- enters the grammar's final state; otherwise it returns <= 0. fsg_search_hyp is proved to return NULL and change nothing whenever no admissible exit exists. Producer side: fsg_search_null_prop is proved (two nested loop contracts, termination of the outer loop) to add only entries whose link leaves the state its predecessor entered, with the predecessor's frame and a null label -- the path-connectivity invariant as a precondition of fsg_history_entry_add. The word-arc producers (lextree transitions and exits) are NOT under contract, so for them the invariant is assumed. Grammar augmentation: alternate-pronunciation arcs added by fsg_model_add_alt join the same states as the base-word arc (bounded, 2-state grammar, real hash table).",
-    note="assumed: ghost-cell view of the history table and its element invariant (producer side not under contract), err_msg; not covered: hypothesis string building, lextree, decoder dispatch; trusted: CBMC 6.11; end-to-end invariants on ~12 real decodes by a bounded native run (native/e2e_invariants.c), never counted as proved",
-    technique="CBMC function + loop contracts enforced with goto-instrument --dfcc; universals via a ghost witness index; unbounded table via ghost cell; plus a bounded native run of the property's end-to-end invariants on real decodes (safety net, not proof)")
+    text="Consumer side of 'results are sentences of the grammar': fsg_search_find_exit is proved, with loop invariants and termination, for history tables of any length: the entry it returns has a link, ends no later than the requested frame, carries the reported score and -- for a final result -- enters the grammar's final state; otherwise it returns <= 0. fsg_search_hyp is proved to return NULL and change nothing whenever no admissible exit exists. Producer side: fsg_search_null_prop is proved (two nested loop contracts, termination of the outer loop) to add only entries whose link leaves the state its predecessor entered, with the predecessor's frame and a null label -- the path-connectivity invariant as a precondition of fsg_history_entry_add. Word arcs: fsg_search_word_trans (two loop contracts: history table of any length with termination, root chain of any length), fsg_search_pnode_trans (loop contract over the sibling chain), fsg_search_hmm_prune_prop (loop contract over the active list; callees replaced by their contracts) and the loop-free fsg_search_pnode_exit are proved to carry the history-source invariant from a word's entry to its exit, where it is exactly that precondition of fsg_history_entry_add; each transition enters its target with the source score plus the target's arc weight exactly once, the source's back-pointer and the next frame, only when allowed by the beam and the phonetic context sets; a word exit adds exactly one entry carrying the leaf's grammar arc, the current frame, the exit score unchanged and the exit back-pointer. The lextree structure these contracts rely on is assumed (checked on real lextrees by a bounded native run). Grammar augmentation: alternate-pronunciation arcs added by fsg_model_add_alt join the same states as the base-word arc (bounded, 2-state grammar, real hash table).",
+    note="assumed: ghost-cell / list-cell views of the history table, sibling chains and active list, lextree structure, one unproved pointer re-materialisation (anytype_t union), err_msg; not covered: hypothesis string building, lextree construction, fsg_search_step sequencing, decoder dispatch; trusted: CBMC 6.11; end-to-end invariants on ~12 real decodes by a bounded native run (native/e2e_invariants.c), never counted as proved",
+    technique="CBMC function + loop contracts enforced with goto-instrument --dfcc on the real fsg_search.c / hmm.c (annotation comments injected on every run); universals via a ghost witness index; unbounded tables and lists via ghost cells; plus a bounded native run of the property's end-to-end invariants on real decodes (safety net, not proof)")
